@@ -147,8 +147,10 @@ func harnessC06Replay() {
 	b, c, d := fID(0), fID(2), fID(1)
 	mb, mc := verif_nondet_u16(), verif_nondet_u16()
 	verif_assume(mb < 1000 && mc < 1000)
-	gb := c06Group(b, 'b', mb, 1) // concrete prefixes: the replay keys its de-duplication map by the printed network
-	gc := c06Group(c, 'c', mc, 2)
+	// concrete prefixes: the replay keys its de-duplication map by the printed network.
+	// Each origin also announces a shorter prefix with the same base address.
+	gb := append(c06Group(b, 'b', mb, 0), protocol.Route{AddressFamily: protocol.AddrFamilyIPv4, PrefixLength: 16, Prefix: []byte{10, 'b', 0, 0}, Metric: mb})
+	gc := append(c06Group(c, 'c', mc, 0), protocol.Route{AddressFamily: protocol.AddrFamilyIPv4, PrefixLength: 16, Prefix: []byte{10, 'c', 0, 0}, Metric: mc})
 	f.HandleRouteAdvertise(b, b, "", 3, gb, &protocol.EncryptedData{Data: protocol.EncodePath([]identity.AgentID{b})}, []identity.AgentID{b})
 	f.HandleRouteAdvertise(b, c, "", 5, gc, &protocol.EncryptedData{Data: protocol.EncodePath([]identity.AgentID{b, c})}, []identity.AgentID{c, b})
 	rm.AddLocalRoute(&net.IPNet{IP: net.IP{10, 'l', 0, 0}, Mask: net.CIDRMask(24, 32)}, 0)
